@@ -343,6 +343,17 @@ def set_in_place(pa, sp):
     return nreal
 
 
+class ImplError(Exception):
+    """the implementation raised on a call the history is entitled to make"""
+
+
+def impl_call(what, fn, *a, **kw):
+    try:
+        return fn(*a, **kw)
+    except Exception as e:      # noqa
+        raise ImplError('%s raised %s: %s' % (what, type(e).__name__, str(e)[:300]))
+
+
 class Session:
     """One Interpolator / SPHEvaluator driven through a case's history."""
 
@@ -376,9 +387,9 @@ class Session:
                 kw = self.points_kw(pts)
             else:
                 kw = {'num_points': pts['num_points']}
-            self.ip = Interpolator(self.srcs, kernel=self.kernel,
-                                   domain_manager=self.domain,
-                                   method=cfg['method'], **kw)
+            self.ip = impl_call('Interpolator()', Interpolator, self.srcs, kernel=self.kernel,
+                                domain_manager=self.domain,
+                                method=cfg['method'], **kw)
             self.label(self.ip.pa)
             self.blines.append('B init arrays=%s pts=%d' % (
                 H.ilist(self.labels[id(a)] for a in self.srcs),
@@ -388,9 +399,9 @@ class Session:
             self.dest = self.make_dest(pts)
             self.label(self.dest)
             arrays = self.srcs + [self.dest]
-            self.ev = SPHEvaluator(arrays, self.equations(), dim=cfg['dim'],
-                                   kernel=self.kernel,
-                                   domain_manager=self.domain)
+            self.ev = impl_call('SPHEvaluator()', SPHEvaluator, arrays, self.equations(),
+                                dim=cfg['dim'], kernel=self.kernel,
+                                domain_manager=self.domain)
             self.blines.append('B initeval objs=%s' % H.ilist(
                 self.labels[id(a)] for a in arrays))
         self.bobs.append(self.bind_obs())
@@ -519,7 +530,7 @@ class Session:
             for pa in self.srcs:
                 self.label(pa)
             if cfg['api'] == 'interp':
-                self.ip.update_particle_arrays(self.srcs)
+                impl_call('update_particle_arrays', self.ip.update_particle_arrays, self.srcs)
                 self.blines.append('B updarr arrays=%s' % H.ilist(
                     self.labels[id(a)] for a in self.srcs))
             else:
@@ -527,7 +538,7 @@ class Session:
                     if 'temp_prop' not in a.properties:
                         a.add_property('temp_prop')
                 arrays = self.srcs + [self.dest]
-                self.ev.update_particle_arrays(arrays)
+                impl_call('SPHEvaluator.update_particle_arrays', self.ev.update_particle_arrays, arrays)
                 self.blines.append('B evalupdarr objs=%s' % H.ilist(
                     self.labels[id(a)] for a in arrays))
             self.bobs.append(self.bind_obs())
@@ -535,21 +546,22 @@ class Session:
         elif kind == 'newpoints':
             self.computes_on_points = 0
             if cfg['api'] == 'interp':
-                self.ip.set_interpolation_points(**self.points_kw(op['points']))
+                impl_call('set_interpolation_points', self.ip.set_interpolation_points,
+                          **self.points_kw(op['points']))
                 self.label(self.ip.pa)
                 self.blines.append('B setpts p=%d' % self.labels[id(self.ip.pa)])
             else:
                 self.dest = self.make_dest(op['points'])
                 self.label(self.dest)
                 arrays = self.srcs + [self.dest]
-                self.ev.update_particle_arrays(arrays)
+                impl_call('SPHEvaluator.update_particle_arrays', self.ev.update_particle_arrays, arrays)
                 self.blines.append('B evalupdarr objs=%s' % H.ilist(
                     self.labels[id(a)] for a in arrays))
             self.bobs.append(self.bind_obs())
             self.bstale.append(False)
         elif kind == 'setdomain':
             self.computes_on_points = 0
-            self.ip.set_domain(tuple(op['bounds']), tuple(op['shape']))
+            impl_call('set_domain', self.ip.set_domain, tuple(op['bounds']), tuple(op['shape']))
             self.label(self.ip.pa)
             self.blines.append('B setpts p=%d' % self.labels[id(self.ip.pa)])
             self.bobs.append(self.bind_obs())
@@ -561,9 +573,9 @@ class Session:
         if self.domain is not None:
             update_domain = True     # ghosts must follow the particles
         if self.cfg['api'] == 'interp':
-            self.ip.update(update_domain=update_domain)
+            impl_call('update', self.ip.update, update_domain=update_domain)
         else:
-            self.ev.update(update_domain=update_domain)
+            impl_call('SPHEvaluator.update', self.ev.update, update_domain=update_domain)
         self.blines.append('B update')
         self.bobs.append(self.bind_obs())
         self.bstale.append(False)
@@ -572,7 +584,7 @@ class Session:
         """returns the flat result for the real destination particles"""
         self.computes_on_points += 1
         if self.cfg['api'] == 'interp':
-            r = self.ip.interpolate(prop, comp)
+            r = impl_call('interpolate', self.ip.interpolate, prop, comp)
             self.last_shape = list(np.shape(r))
             return np.asarray(r, dtype=float).ravel().tolist()
         # SPHEvaluator: do what Interpolator.interpolate does around compute
@@ -580,7 +592,7 @@ class Session:
             data = a.get(prop, only_real_particles=False) \
                 if prop in a.properties else 0.0
             a.get('temp_prop', only_real_particles=False)[:] = data
-        self.ev.evaluate()
+        impl_call('evaluate', self.ev.evaluate)
         d = self.dest
         n = d.num_real_particles
         full = d.get('prop', only_real_particles=False)
@@ -791,6 +803,11 @@ def observe(ses, op, res, where):
                 c('oracle:threshold-band')
                 continue
             if den <= TOL12:
+                if not all(w > 0 for (w, _, _) in con):
+                    # a sign-changing kernel (SuperGaussian) cancelled: the
+                    # weighted mean is not defined there
+                    c('oracle:cancelled-weights-skipped')
+                    continue
                 c('oracle:below-threshold')
                 if not (abs(got) <= TOL12 * fmax * (1 + 1e-6) + 1e-300):
                     out['fails'].append(('C14:shepard:below-threshold',
@@ -923,34 +940,45 @@ def run_case(case, R_like):
 
     def c(key, n=1):
         rec['counts'][key] = rec['counts'].get(key, 0) + n
-    ses = Session(case)
     obs = []
+    try:
+        ses = Session(case)
+    except ImplError as e:
+        rec['fails'].append({'key': 'C14:%s:raises' % cfg['method'],
+                             'demand': 'construction succeeds', 'observed': str(e)})
+        return rec
     # the model decides whether neighbour lists are current; mirror its rule
     # here only to know when NOT to interpolate (an out-of-contract call)
     stale = False
-    for t, op in enumerate(case['ops']):
-        if op['op'] == 'interp':
-            if stale:
-                c('interp-skipped-stale-neighbours')
-                continue
-            prop = op['prop']
-            res = ses.interpolate(prop, op['comp'])
-            where = 'op %d interpolate(%s,%d)' % (t, prop, op['comp'])
-            o = observe(ses, op, res, where)
-            o['op_index'] = t
-            obs.append(o)
-            c('interp:%s' % prop)
-            c('after:%s' % (case['ops'][t - 1]['op'] if t else 'construction'))
-        else:
-            ses.apply(op)
-            c('op:%s' % op['op'])
-            if op['op'] in ('mutate', 'movepoints'):
-                stale = not op['update']
+    try:
+        for t, op in enumerate(case['ops']):
+            if op['op'] == 'interp':
                 if stale:
-                    c('history-left-stale')
+                    c('interp-skipped-stale-neighbours')
+                    continue
+                prop = op['prop']
+                res = ses.interpolate(prop, op['comp'])
+                where = 'op %d interpolate(%s,%d)' % (t, prop, op['comp'])
+                o = observe(ses, op, res, where)
+                o['op_index'] = t
+                obs.append(o)
+                c('interp:%s' % prop)
+                c('after:%s' % (case['ops'][t - 1]['op'] if t else 'construction'))
             else:
-                # a rebinding builds a new neighbour structure
-                stale = False
+                ses.apply(op)
+                c('op:%s' % op['op'])
+                if op['op'] in ('mutate', 'movepoints'):
+                    stale = not op['update']
+                    if stale:
+                        c('history-left-stale')
+                else:
+                    # a rebinding builds a new neighbour structure
+                    stale = False
+    except ImplError as e:
+        rec['fails'].append({'key': 'C14:%s:raises' % cfg['method'],
+                             'demand': 'operation %d of the history succeeds' % t,
+                             'observed': str(e)})
+        c('history-aborted-by-exception')
     # ---- driver: binding lines first (stateful), then the point lines
     lines = list(ses.blines)
     for o in obs:
